@@ -16,11 +16,11 @@ open Expr Bits
 def EqOK (ρ : Val) : Prop := ∀ a b : Expr, WF a → WF b → Plain a → Plain b → a.size = b.size →
   (render a = render b ∨ hashEq a b = true) → ideal ρ a = ideal ρ b
 
-/-- the options covered by the value-soundness theorem: plain `simplify()` — neither `widening` (which produces
-    the non-deterministic `vecw`) nor `bitslice` -/
-def OptsOK (o : Opts) : Prop := o.widening = false ∧ o.bitslice = false
+/-- the options covered by the value-soundness theorem: `simplify()` and `simplify(bitslice=True)` — not
+    `widening` (which produces the non-deterministic `vecw`) -/
+def OptsOK (o : Opts) : Prop := o.widening = false
 
-theorem OptsOK_default : OptsOK {} := ⟨rfl, rfl⟩
+theorem OptsOK_default : OptsOK {} := rfl
 
 /-- value postcondition -/
 def SPost (ρ : Val) (v : Nat) (r : R Expr) : Prop := ∀ e, r = .ok e → Plain e ∧ ideal ρ e = v
